@@ -49,8 +49,10 @@
 //! all live handles still denote what they denoted), `capi-invalid-not-propagated`,
 //! `capi-invalid-changed-state`, `capi-unexpected-invalid`, `capi-make-node-leak` (node balance
 //! failures after `make_node` ran on a path on which /repo's wrapper does not take `hi`/`lo`
-//! over), `capi-cap0-not-unlimited`, `capi-crash` / `capi-hang` (the child process died / did
-//! not answer).
+//! over), `capi-cap0-not-unlimited` (only while the documentation of `manager_new` promises
+//! that capacity 0 means "no limit"), `capi-crash` / `capi-hang` (the child process died / did
+//! not answer; in the dedicated known-finding case `kf-zbdd-addvars-oom-capi`, generated with
+//! `gen … --kf 1`, the signature is `crash`).
 //!
 //! `run` rebuilds the library from /repo's working tree first (`cargo build -p oxidd-ffi-c` into
 //! /verif/harness/target-ffi) unless `--no-build` is given; `--lib <path>` selects another file.
@@ -1160,7 +1162,9 @@ impl Real {
         let n: u32 = kv("vars").and_then(|x| x.parse().ok()).unwrap_or(0);
         let cap: usize = kv("cap").and_then(|x| x.parse().ok()).unwrap_or(1 << 16);
         self.tiny = cap < 1 << 12;
-        self.cap0 = cap == 0;
+        // an INVALID result in a capacity-0 manager is a failure only while the documentation
+        // says that 0 means "no limit"
+        self.cap0 = cap == 0 && cap0_documented_unlimited(["bdd", "bcdd", "zbdd"][self.kind]);
         let api = &self.ld.apis[self.kind];
         let cm = unsafe { (api.manager_new)(cap, 1024, 1) };
         if cm.p.is_null() {
@@ -2354,7 +2358,9 @@ impl Scenario for Proxy {
             }
             None => {
                 let st = self.died();
-                ctx.fail("capi-crash", &format!("the process executing the C API calls died ({st}) while executing `{line}`"));
+                // dedicated known-finding cases use the signature of the finding
+                let sig = if ctx.case.starts_with("case kf-") { "crash" } else { "capi-crash" };
+                ctx.fail(sig, &format!("the process executing the C API calls died ({st}) while executing `{line}`"));
                 ctx.count("child_crashes");
                 self.dead_case = Some(ctx.case.clone());
                 "CRASH".into()
@@ -2978,12 +2984,14 @@ fn enumerated(w: &mut dyn Write, kind: &'static str) {
         }
     }
 
-    // `inner_node_capacity = 0` is documented as "no limit" (only generated while the
-    // documentation of `oxidd_<kind>_manager_new` says so)
-    if cap0_documented_unlimited(kind) {
+    // `inner_node_capacity = 0`: a manager that can only hold the terminals (if the documentation
+    // of `oxidd_<kind>_manager_new` promises "no limit" for 0, an INVALID result is a failure).
+    // ZBDD managers abort in `add_vars` without room for one node per variable: known finding
+    // KF-zbdd-addvars-oom, dedicated case below.
+    if !z {
         p(&format!("case enum-cap0-{kind}"));
         p(&format!("mgr {kind} vars=2 cap=0"));
-        for l in ["const t T", "var a 0", "var b 1", "op g and a b", "show g"] {
+        for l in ["const t T", "const f F", "var a 0", "var b 1", "op g and a b", "op n not t", "op x xor t f", "show g", "show x", "count t", "gc"] {
             p(l);
         }
         p("end");
@@ -3006,6 +3014,14 @@ fn generate(cfg: &GenCfg, rng: &mut Rng, w: &mut dyn Write) {
     if suite == "main" {
         for k in kinds {
             enumerated(w, k);
+        }
+        if cfg.extra.get("kf").map(|v| v == "1").unwrap_or(false) {
+            // known finding KF-zbdd-addvars-oom reached through the C API: `add_vars` aborts the
+            // process when the tautology chain does not fit (reported with signature `crash`)
+            writeln!(w, "case kf-zbdd-addvars-oom-capi").unwrap();
+            writeln!(w, "mgr zbdd vars=3 cap=2").unwrap();
+            writeln!(w, "zconst e empty").unwrap();
+            writeln!(w, "end").unwrap();
         }
         let cases = if cfg.thorough { 12000 * scale } else { 600 * scale };
         for i in 0..cases {
